@@ -178,7 +178,7 @@ func c11Rand(c *Ctx) {
 	// every draw advances the generator's state: a method invoked on the wrapped source needs the lock held for
 	// WRITING — a shared (read) lock lets two draws interleave and lose or repeat state (seed c11e)
 	{
-		srcField := c.FieldOpt("db", "lockedSource", "src")
+		srcField := c.tabledFieldByName("db", "lockedSource", "src")
 		if srcField == nil {
 			// the wrapped source by type: the field of interface type rand.Source / rand.Source64
 			st := structOf(c.Named("db", "lockedSource"))
@@ -326,6 +326,20 @@ func c11Max(c *Ctx) {
 			if mi, ok := k.(*ssa.MakeInterface); ok {
 				if s, isS := stringConst(mi.X); isS {
 					return mi.X.Type().String() + ":" + s
+				}
+				// a key that is a value of its own (unexported) type: context keys compare by dynamic type and value; an
+				// empty struct / constant of a named type is identified by that type (and the constant, if any)
+				if k, isK := mi.X.(*ssa.Const); isK {
+					v := "zero"
+					if k.Value != nil {
+						v = k.Value.ExactString()
+					}
+					return mi.X.Type().String() + ":" + v
+				}
+				if _, isNamed := mi.X.Type().(*types.Named); isNamed {
+					if st, isSt := mi.X.Type().Underlying().(*types.Struct); isSt && st.NumFields() == 0 {
+						return mi.X.Type().String() + ":{}"
+					}
 				}
 			}
 		}
